@@ -558,24 +558,44 @@ def lister_info(repo, ci, cache):
                 if ex:
                     pat = p
     excl = []
+    # local constants of the lister (e.g. `temporary = PREFIX + TEMP`) are evaluated with the module constants
+    e2 = Engine(ConstModel(ci.module), unroll=1)
+    cst = St()
+    for stt in fi.node.body:
+        if isinstance(stt, ast.Assign) and len(stt.targets) == 1 and isinstance(stt.targets[0], ast.Name):
+            try:
+                rs = e2.ev(stt.value, cst)
+            except AnalysisError:
+                rs = []
+            if len(rs) == 1 and rs[0].exc is None:
+                cst = rs[0].st
+                cst.env[stt.targets[0].id] = rs[0].val
+
+    def excluded_prefix(c):
+        """c = <basename expr>.startswith(<const>) -> the constant prefix or None"""
+        if isinstance(c, ast.Call) and isinstance(c.func, ast.Attribute) and c.func.attr == 'startswith' and len(c.args) == 1 \
+                and 'basename' in unparse(c.func.value):
+            try:
+                rs = e2.ev(c.args[0], cst.fork())
+            except AnalysisError:
+                return None
+            if rs and rs[0].exc is None:
+                p, ex = aprefix(rs[0].val)
+                if ex:
+                    return p
+        return None
     for n in ast.walk(fi.node):
         if isinstance(n, (ast.ListComp, ast.GeneratorExp)):
             for g in n.generators:
                 for cond in g.ifs:
-                    c = cond
-                    if isinstance(c, ast.UnaryOp) and isinstance(c.op, ast.Not):
-                        c = c.operand
-                        if isinstance(c, ast.Call) and isinstance(c.func, ast.Attribute) and c.func.attr == 'startswith' and len(c.args) == 1:
-                            recv = unparse(c.func.value)
-                            if 'basename' in recv:
-                                # evaluate the constant expression with module constants
-                                m = PlainModel(ci.module)
-                                e2 = Engine(ConstModel(ci.module), unroll=1)
-                                rs = e2.ev(c.args[0], St())
-                                if rs and rs[0].exc is None:
-                                    p, ex = aprefix(rs[0].val)
-                                    if ex:
-                                        excl.append(p)
+                    if isinstance(cond, ast.UnaryOp) and isinstance(cond.op, ast.Not):
+                        p = excluded_prefix(cond.operand)
+                        if p is not None:
+                            excl.append(p)
+        elif isinstance(n, ast.If) and len(n.body) == 1 and isinstance(n.body[0], ast.Continue) and not n.orelse:
+            p = excluded_prefix(n.test)      # for d in dirs: if basename(d).startswith(tmp): continue
+            if p is not None:
+                excl.append(p)
     return pat, excl
 
 
@@ -769,7 +789,7 @@ class FModel(PlainModel):
         if f[0] == 'attr' and f[2] == 'update' and contains_term(f[1], lambda t: t[0] == 'call' and t[1][0] == 'lib' and t[1][1].startswith('._archives.')):
             st.emit('AUPDATE', (f[1],) + tuple(args), line)
             return [R(st, NONE)]
-        return None
+        return PlainModel.call(self, f, args, kws, st, node)     # helper functions of archives.py are inlined
 
 
 def rule_A_FACTORY_OPEN(ctx, repo, cache, open_only=False, do_open=True):
